@@ -807,7 +807,10 @@ class Extractor:
             p.effects.append(('set', (base, target.attr), val))
         elif isinstance(target, (ast.Tuple, ast.List)):
             for i, el in enumerate(target.elts):
-                self.assign(el, ('item', val, lit(i)), p, bound)
+                if val[0] == 'list' and len(val[1]) == len(target.elts):
+                    self.assign(el, val[1][i], p, bound)        # a, b = x, y
+                else:
+                    self.assign(el, ('item', val, lit(i)), p, bound)
         elif isinstance(target, ast.Subscript):
             base = self.expr(target.value, p, bound)
             key = self.expr(target.slice, p, bound)
